@@ -78,6 +78,8 @@ def words_hex(ws):
 
 def make_case(rng, cid, what):
     """what: set of batches wanted: valid, broken, sources, groups, raw"""
+    if "sources" in what and rng.random() < 0.3:
+        return source_multi_case(rng, cid)
     for _ in range(50):
         args, globs, abbr = G.gen_config(rng)
         uses = G.gen_uses(rng, args, globs)
@@ -175,6 +177,38 @@ def make_case(rng, cid, what):
                         any(i in mem for _, mem, _s in globs)
                     if not involved:
                         add("pa eval file=%s -- %s" % (G.hx(" ".join(q)), words_hex(ws)), want, "override")
+    if "sources" in what:
+        # override beyond the cardinality: values from the file / the environment do not count, so an argument with a
+        # finite maximum may get more than the maximum there and still its full share on the command line
+        single = set(m for kind, mem, _s in globs if kind in ("anyof", "oneof") for m in mem)
+        cand = [i for i, a_ in enumerate(args)
+                if a_.kind in ("int", "str", "vec") and a_.maxuses() < 99 and not a_.cons and i not in single
+                and not any(i in tgt for b_ in args for _, tgt, _s in b_.cons) and any(u[0] == i for u in uses)]
+        if cand:
+            i = rng.choice(cand)
+            a_ = args[i]
+            m = a_.maxuses()
+            key = ("-" + a_.short) if a_.short else ("--" + a_.long)
+            if a_.kind == "vec":
+                vals = [rng.randint(max(a_.lo, 0), 40) for _ in range(m + 1)]
+                if a_.multi and rng.random() < 0.6:
+                    srcwords = [key] + [str(v) for v in vals]                       # free values
+                else:
+                    srcwords = [w for v in vals for w in (key, str(v))]             # one use per value
+                extra = [(i, ("vec", vals))]
+            else:
+                pv = [G.gen_value(rng, a_) for _ in range(m + 1)]
+                srcwords = [w for v in pv for w in (key, v[0])]
+                extra = [(i, v) for v in pv]
+            if all(G.next_word_ok(w) or w == key for w in srcwords):
+                aws = G.spell(rng, args, uses, abbr)
+                if aws is not None:
+                    want2 = G.expected(args, uses, extra_first=extra)
+                    if rng.random() < 0.5:
+                        opt = "file=" + G.hx(" ".join(srcwords))
+                    else:
+                        opt = "env=" + G.hx(" ".join(srcwords))
+                    add("pa eval %s -- %s" % (opt, words_hex(aws)), want2, "override-cardinality")
     if "groups" in what and len(args) >= 2:
         # partition keeping constraint partners and handler-constraint members together
         n = len(args)
@@ -247,6 +281,55 @@ def make_case(rng, cid, what):
                     opts = "env=" + G.hx(e)
             add("pa eval %s -- %s" % (opts, words_hex(ws)), None, "raw-eval")
     return Case(cid, lines)
+
+
+def source_multi_case(rng, cid):
+    """a multi-value list argument with a finite maximum: values (key + free values, or one use per value) delivered
+    by the file and/or the environment beyond the maximum, then the full share on the command line — accepted, because
+    source values are not counted (first value of a use and free values; list elements after the first ARE counted:
+    known finding, not used here)"""
+    m = rng.randint(1, 4)
+    sep = rng.choice([",", ";", ":"])
+    card = rng.choice(["max:%d" % m, "range:1:%d" % m, "exact:%d" % m])
+    short, long_ = rng.choice(G.SHORTS), rng.choice(G.LONGS)
+    init = [rng.randint(0, 9) for _ in range(rng.randint(0, 2))]
+    lines = ["pa cfg begin abbr=%d" % rng.randint(0, 1),
+             "pa arg key=%s,%s kind=vec card=%s multi%s%s" % (short, long_, card, "" if sep == "," else " sep=" + G.hx(sep),
+                                                            " init=" + ",".join(map(str, init)) if init else ""),
+             "pa arg key=Q kind=flag", "pa cfg end"]
+    keyforms = ["-" + short, "--" + long_]
+
+    def deliver(vals):
+        if rng.random() < 0.5:
+            return [rng.choice(keyforms)] + [str(v) for v in vals]           # key + free values
+        return [w for v in vals for w in (rng.choice(keyforms), str(v))]     # one use per value
+    for _ in range(rng.randint(2, 4)):
+        fvals = [rng.randint(0, 40) for _ in range(rng.choice([0, 0, m, m + 1, 2 * m + 1]))]
+        evals = [rng.randint(0, 40) for _ in range(rng.choice([0, m, m + 1, 2 * m + 1]))]
+        avals = [rng.randint(0, 40) for _ in range(m)]
+        opts = []
+        if fvals:
+            # split over one or two file lines (the last-argument marker survives the line end)
+            if len(fvals) > 1 and rng.random() < 0.4:
+                k = rng.randint(1, len(fvals) - 1)
+                fl = [" ".join(deliver(fvals[:k])), "# comment", " ".join(deliver(fvals[k:]))]
+            else:
+                fl = [" ".join(deliver(fvals))]
+            opts.append("file=" + "|".join(G.hx(l) for l in fl))
+        if evals:
+            opts.append("env=" + G.hx(" ".join(deliver(evals))))
+        aw = deliver(avals)
+        if rng.random() < 0.3:
+            aw = ["-Q"] + aw
+            q = 1
+        else:
+            q = 0
+        exp = "ok 0:v=[%s] 1:f=%d" % (",".join(map(str, init + fvals + evals + avals)), q)
+        lines.append("pa eval x-lbl=source-multi x-exp=%s %s -- %s" % (G.hx(exp), " ".join(opts), words_hex(aw)))
+        # and one value too many on the command line is still refused
+        aw2 = deliver(avals + [1])
+        lines.append("pa eval x-lbl=source-multi-toomany x-exp=%s %s -- %s" % (G.hx("throw"), " ".join(opts), words_hex(aw2)))
+    return Case(cid, [" ".join(l.split()) for l in lines])
 
 
 BATCHES = {
